@@ -41,6 +41,28 @@ func newMonitor(contract bool) *monitor {
 		rere: map[uint64]bool{}, torn: map[uint64]string{}, passed: map[uint64]uint64{}, flagged: map[string]bool{}}
 }
 
+// tornKnown: the one crash window of the current code that leaves a height both in the persisted carry-over and at or
+// above the persisted scan position (Spec.C20.C20_crash_torn_pushback_duplicates); beyond C20's quantifier.
+const tornKnown = "pushback-saved-before-scan-position"
+
+func (m *monitor) crashDup(c *hx.Ctx, w, what string) {
+	if w == tornKnown {
+		c.Hit("beyond-quantifier/duplicated/" + w)
+		return
+	}
+	c.Report("C20/crash/unaccounted/duplicated-"+w, what)
+}
+
+// report: signatures under beyond-quantifier/ are effects of a crash INSIDE a call (k >= 1), which C20 does not
+// quantify over: they go to the histogram, not to the findings.
+func report(c *hx.Ctx, sig, what string) {
+	if strings.HasPrefix(sig, "beyond-quantifier/") {
+		c.Hit(sig)
+		return
+	}
+	c.Report(sig, what)
+}
+
 func effMax(max uint64) uint64 {
 	if max == 0 {
 		return based.DefaultMaxBlobSize
@@ -70,7 +92,10 @@ func (m *monitor) classifyMissing(s *scen, h uint64, id []byte, r *callRes, relN
 	eff := effMax(r.max)
 	qa, qb := flatten(r.qAfter), flatten(r.qBefore)
 	if w, ok := m.torn[h]; ok {
-		return "C20/crash/reordered/" + w
+		if w == tornKnown {
+			return "beyond-quantifier/reordered/" + w
+		}
+		return "C20/crash/unaccounted/reordered-" + w
 	}
 	if findItem(qa, id) >= 0 && len(qa) > 0 {
 		if uint64(len(qa[0].tx)) > eff {
@@ -162,7 +187,7 @@ func (m *monitor) afterCall(c *hx.Ctx, s *scen, r *callRes, contractCall bool) {
 		}
 		if first, dup := m.released[string(id)]; dup {
 			if w, ok := m.torn[h]; ok {
-				c.Report("C20/crash/duplicated/"+w, fmt.Sprintf("call %d releases id %s (height %d, index %d) again (first in call %d): a crash inside an earlier call left the height both in the persisted carry-over and ahead of the persisted scan position", k, hx.Hex(id), h, i, first))
+				m.crashDup(c, w, fmt.Sprintf("call %d releases id %s (height %d, index %d) again (first in call %d): a crash inside an earlier call left the height both in the persisted carry-over and ahead of the persisted scan position", k, hx.Hex(id), h, i, first))
 			} else if m.rescanned[h] {
 				m.rere[h] = true
 				c.Report("C20/exactly-once/height-rereleased", fmt.Sprintf("call %d releases id %s (height %d, index %d) again (first in call %d): the scan restarted at height %d although its txs had been taken", k, hx.Hex(id), h, i, first, h))
@@ -182,7 +207,7 @@ func (m *monitor) afterCall(c *hx.Ctx, s *scen, r *callRes, contractCall bool) {
 					continue
 				}
 				m.flagged[string(y)] = true
-				c.Report(m.classifyMissing(s, hy, y, r, relNow), fmt.Sprintf("call %d releases %s while the earlier DA tx (height %d, index %d) has not been released", k, hx.Hex(id), hy, iy))
+				report(c, m.classifyMissing(s, hy, y, r, relNow), fmt.Sprintf("call %d releases %s while the earlier DA tx (height %d, index %d) has not been released", k, hx.Hex(id), hy, iy))
 			}
 		}
 	}
@@ -192,7 +217,7 @@ func (m *monitor) afterCall(c *hx.Ctx, s *scen, r *callRes, contractCall bool) {
 		if h, _, ok := splitID(it.id); ok {
 			if _, dup := m.released[string(it.id)]; dup && findItem(qb, it.id) < 0 {
 				if w, ok := m.torn[h]; ok {
-					c.Report("C20/crash/duplicated/"+w, fmt.Sprintf("call %d queues id %s (height %d) again although it was released: a crash inside an earlier call left the height both in the persisted carry-over and ahead of the persisted scan position", k, hx.Hex(it.id), h))
+					m.crashDup(c, w, fmt.Sprintf("call %d queues id %s (height %d) again although it was released: a crash inside an earlier call left the height both in the persisted carry-over and ahead of the persisted scan position", k, hx.Hex(it.id), h))
 				} else if m.rescanned[h] {
 					m.rere[h] = true
 					c.Report("C20/exactly-once/height-rereleased", fmt.Sprintf("call %d queues id %s (height %d) again although it was released: the scan restarted at height %d", k, hx.Hex(it.id), h, h))
@@ -246,7 +271,7 @@ func (m *monitor) afterCall(c *hx.Ctx, s *scen, r *callRes, contractCall bool) {
 				continue
 			}
 			m.flagged[string(y)] = true
-			c.Report(m.classifyMissing(s, h, y, r, relNow), fmt.Sprintf("after call %d (scan position %d) the DA tx (height %d, index %d) is neither released nor in the persisted carry-over", k, posAfter, h, i))
+			report(c, m.classifyMissing(s, h, y, r, relNow), fmt.Sprintf("after call %d (scan position %d) the DA tx (height %d, index %d) is neither released nor in the persisted carry-over", k, posAfter, h, i))
 		}
 	}
 	if len(qa) > 0 {
@@ -259,12 +284,16 @@ func (m *monitor) afterCall(c *hx.Ctx, s *scen, r *callRes, contractCall bool) {
 
 // afterCrash: the call r ran on the real sequencer, the process died when the first k of its durable writes
 // (names) were on disk, its answer was NOT delivered; img is the durable image the restarted sequencer sees.
-// Clause "never drops ... survive a restart" across a crash inside a call:
-//   C20/crash/dropped/pop-saved-before-answer-returned            the lost tx was popped from the persisted carry-over by the dying call
-//   C20/crash/dropped/scan-position-saved-before-answer-returned  the lost tx was scanned by the dying call and the position past it is on disk
-//   C20/crash/dropped/not-in-undelivered-answer                   anything else (a tx the dying call did not even try to release)
-//   C20/crash/duplicated|reordered/<write>-saved-before-<write>   observed LATER, when a height left both in the persisted queue and at/above
-//                                                                 the persisted position is released out of order / again (afterCall)
+// C20 quantifies over restarts BETWEEN two calls (= the crash point k=0). What a crash INSIDE a call (k >= 1) does
+// is beyond the property: it is observed (the observation line is diffed against the Lean model at every crash point),
+// counted in the histogram, and reported only when it is MORE than Spec.C20.C20_crash_accounting allows:
+//   hit    beyond-quantifier/dropped/pop-saved-before-answer-returned            popped by the dying call, pop saved
+//   hit    beyond-quantifier/dropped/scan-position-saved-before-answer-returned  scanned by the dying call, all writes on disk
+//   hit    beyond-quantifier/duplicated|reordered/pushback-saved-before-scan-position  (observed later, afterCall)
+//   REPORT C20/crash/unaccounted/not-in-undelivered-answer        a tx the dying call did not even try to release is lost
+//   REPORT C20/crash/unaccounted/lost-before-first-write          k=0 is a restart between calls: nothing may be lost
+//   REPORT C20/crash/unaccounted/scanned-tx-lost-before-last-write  the position passed a scanned tx before the last write
+//   REPORT C20/crash/unaccounted/duplicated-|reordered-<write>-saved-before-<write>   a torn window the current code does not have
 func (m *monitor) afterCrash(c *hx.Ctx, s *scen, r *callRes, k int, names []string, img map[string][]byte, contractCall bool) {
 	kc := m.callNo
 	m.callNo++
@@ -307,9 +336,13 @@ func (m *monitor) afterCrash(c *hx.Ctx, s *scen, r *callRes, k int, names []stri
 				m.touchedAt[h] = kc
 			}
 			if h >= pos {
-				if _, ok := m.torn[h]; !ok {
-					m.torn[h] = cause
-					c.Hit("crash:torn-pushback")
+				// the heights pos..h will be scanned again although the carry-over of h is on disk: what the dying
+				// call took from them comes AFTER that carry-over, which is then released a second time
+				c.Hit("crash:torn-pushback")
+				for hh := pos; hh <= h && hh < pos+4096; hh++ {
+					if _, ok := m.torn[hh]; !ok {
+						m.torn[hh] = cause
+					}
 				}
 			}
 		}
@@ -339,15 +372,22 @@ func (m *monitor) afterCrash(c *hx.Ctx, s *scen, r *callRes, k int, names []stri
 			m.flagged[string(y)] = true
 			lost++
 			what := fmt.Sprintf("call %d died %s (after %d of its %d durable writes), its answer (%d txs) was not delivered: the DA tx (height %d, index %d) is neither released nor in the persisted carry-over, and the persisted scan position %d will not come back to it", kc, window, k, len(names), len(r.ids), h, i, pos)
+			// what the accounting theorem (Spec.C20.C20_crash_accounting, lostAt) allows a crash INSIDE a call to lose:
+			// nothing before the first write; what the dying call popped from the persisted carry-over once the pop is
+			// saved; its whole undelivered answer once ALL its writes are on disk. Such a loss is beyond C20's quantifier
+			// (restarts between two calls): counted, not reported. Anything else is reported.
+			popped := findItem(qb, y) >= 0
 			switch {
 			case !und[string(y)]:
-				c.Report("C20/crash/dropped/not-in-undelivered-answer", what)
-			case findItem(qb, y) >= 0:
-				c.Report("C20/crash/dropped/pop-saved-before-answer-returned", what)
-			case k == len(names) && k > 0 && names[k-1] == "scan-position-save":
-				c.Report("C20/crash/dropped/scan-position-saved-before-answer-returned", what)
+				c.Report("C20/crash/unaccounted/not-in-undelivered-answer", what)
+			case k == 0:
+				c.Report("C20/crash/unaccounted/lost-before-first-write", what)
+			case popped && names[0] == "pop-save":
+				c.Hit("beyond-quantifier/dropped/pop-saved-before-answer-returned")
+			case k == len(names) && names[k-1] == "scan-position-save":
+				c.Hit("beyond-quantifier/dropped/scan-position-saved-before-answer-returned")
 			default:
-				c.Report("C20/crash/dropped/"+cause, what)
+				c.Report("C20/crash/unaccounted/scanned-tx-lost-before-last-write", what+" ("+cause+")")
 			}
 		}
 	}
